@@ -41,6 +41,23 @@ int vf_choice(int n) {
 void vf_choice_end(void) { if (ch_pos != ch_n) { fprintf(stderr, "VF_SPEC skeleton vector not fully consumed\n"); _Exit(3); } }
 void vf_out(long v) { printf("OUT %ld\n", v); fflush(stdout); }
 void vf_witness(void) { }
+/* native counterpart of the lock-region injection hook (rt/rt.h): pthread_mutex_lock is interposed */
+typedef void rt_inject_fn(void);
+static rt_inject_fn *inject_f; static int inject_at, lock_events, in_hook;
+void vf_inject_arm(rt_inject_fn *fn, int k) { inject_f = fn; inject_at = k; lock_events = 0; }
+int vf_inject_pending(void) { return inject_f != 0; }
+void vf_inject_disarm(void) { inject_f = 0; inject_at = 0; }
+#include <pthread.h>
+#include <dlfcn.h>
+int pthread_mutex_lock(pthread_mutex_t *m) {
+  static int (*real)(pthread_mutex_t*);
+  if (!real) real = (int (*)(pthread_mutex_t*))dlsym(RTLD_NEXT, "pthread_mutex_lock");
+  if (inject_f && !in_hook) {
+    lock_events++;
+    if (lock_events == inject_at) { rt_inject_fn *f = inject_f; inject_f = 0; in_hook = 1; f(); in_hook = 0; }
+  }
+  return real(m);
+}
 void vf_protect(void *obj, void *lock) { (void)obj; (void)lock; }
 void vf_unprotect_all(void) { }
 #else
